@@ -255,6 +255,7 @@ def _worker(conn, engine_modname, tier, verif_seed):
         faulthandler.enable()
         signal.signal(signal.SIGINT, signal.SIG_IGN)
         engine = _load_engine(engine_modname)
+        executed = []
         while True:
             msg = conn.recv()
             if msg is None:
@@ -271,10 +272,12 @@ def _worker(conn, engine_modname, tier, verif_seed):
                 out["known_hits"] = [(kf["id"], inv) for kf, inv, _ in listed]
                 if new:
                     out["choices"] = cs.taken()
+                    out["prefix"] = list(executed)  # runs this worker process executed before (fallback replay)
                 out["draws"] = cs.total_draws()
                 out["ok"] = True
             except BaseException as e:  # harness error, not a violation
                 out = {"ok": False, "error": "".join(traceback.format_exception(e))[-4000:]}
+            executed.append(run_index)
             out["run_index"] = run_index
             out["wall"] = time.perf_counter() - t0
             conn.send(out)
@@ -393,14 +396,20 @@ class Farm:
 # replay and shrinking
 # ----------------------------------------------------------------------------
 
-def run_recorded(engine, choices, tier, run_index, wall_cap):
-    """Run from a recorded choice dict in a forked child (bounded wall).
-    Returns (summary|None, taken)."""
+def run_recorded(engine, choices, tier, run_index, wall_cap, prefix=None, verif_seed=0):
+    """Run from a recorded choice dict in a forked child (bounded wall).  `prefix`: run indices to
+    execute first, from their seeds, in the same process (only used when a failure does not reproduce
+    in isolation, i.e. depends on state that survived earlier runs of the same worker process)."""
     ctx = mp.get_context("fork")
     parent, child = ctx.Pipe()
 
     def target():
         try:
+            for idx in prefix or []:
+                try:
+                    execute(engine, ChoiceSource(run_seed=run_seed_for(verif_seed, engine.NAME, idx)), tier, idx)
+                except BaseException:
+                    pass
             cs = ChoiceSource(recorded=choices)
             res = execute(engine, cs, tier, run_index)
             out = res.summary()
@@ -416,7 +425,7 @@ def run_recorded(engine, choices, tier, run_index, wall_cap):
     p.start()
     child.close()
     out = None
-    if parent.poll(wall_cap):
+    if parent.poll(wall_cap * (1 + len(prefix or []))):
         try:
             out = parent.recv()
         except EOFError:
@@ -565,7 +574,7 @@ def versions():
     return out
 
 
-def write_replay(engine, invariant, verif_seed, tier, run_index, choices, out, repo):
+def write_replay(engine, invariant, verif_seed, tier, run_index, choices, out, repo, prefix=None):
     os.makedirs(os.path.join(outdir(), "replays"), exist_ok=True)
     path = os.path.join(outdir(), "replays", f"{engine.PROPERTY}-{engine.NAME}-{verif_seed}-{run_index}.json")
     det = [d for inv, d in out["violations"] if inv == invariant]
@@ -579,6 +588,7 @@ def write_replay(engine, invariant, verif_seed, tier, run_index, choices, out, r
         "tier": tier,
         "run_index": run_index,
         "choices": choices,
+        "prefix_runs": list(prefix or []),
         "ops": out.get("sample"),
         "faults": out.get("faults"),
         "detail": det[0] if det else None,
@@ -597,7 +607,7 @@ def replay_file(path, quiet=False):
     with open(path) as f:
         doc = json.load(f)
     engine = _load_engine(doc["engine_module"])
-    out = run_recorded(engine, doc["choices"], doc["tier"], doc["run_index"], engine.RUN_WALL_CAP * 2)
+    out = run_recorded(engine, doc["choices"], doc["tier"], doc["run_index"], engine.RUN_WALL_CAP * 2, prefix=doc.get("prefix_runs") or None, verif_seed=doc.get("verif_seed", 0))
     if not out or "error" in out:
         return False, "replay run failed: %s" % (out or {}).get("error", "timeout")
     invs = [v[0] for v in out["violations"]]
